@@ -191,7 +191,7 @@ Section B.
                  match snd kv with
                  | INone => False
                  | IValue _ => pair_wf true (snd kv)
-                 | ITable sub => tbl_wf false sub /\ (if t_dotted sub then has_line sub = true else shown sub = true \/ prints_header sub = true)
+                 | ITable sub => tbl_wf false sub /\ (if t_dotted sub then has_line sub = true \/ prints_header sub = true else shown sub = true \/ prints_header sub = true)
                  | IAot ts _ => ts <> [] /\ all_P (fun e => t_dotted e = false /\ tbl_wf false e) ts
                  end) (t_items t).
   Proof. destruct t; reflexivity. Qed.
